@@ -42,7 +42,7 @@ def plan(tier, seed):
     specs += [{"kind": "real", "i": i, "count": 5 if q else 40} for i in range(8 if q else 16)]
     # volume for the clauses that need many solver runs rather than many drawings: printed minimum = cost of every written
     # solution, `all` contains `any` - larger inputs, the four super-reconciliation algorithms and thl, no drawing
-    specs += [{"kind": "pairs", "i": i, "count": 70 if q else 600} for i in range(12 if q else 30)]
+    specs += [{"kind": "pairs", "i": i, "count": 300 if q else 1200} for i in range(12 if q else 30)]
     return specs
 
 
@@ -393,11 +393,11 @@ def canaries(ctx):
 def run(ctx, spec):
     rng = ctx.rng(spec["kind"])
     if spec["kind"] == "pairs":
-        algos = ["superdtl", "base_uspfs", "ext_spfs", "superdtl", "base_spfs", "thl", "superdtl"]
+        algos = ["superdtl", "base_uspfs", "superdtl", "ext_spfs", "superdtl", "base_spfs", "thl", "superdtl"]
         for k in range(spec["count"]):
             algo = algos[(k + spec["i"]) % len(algos)]
             uno = "uspfs" in algo or algo == "superdtl"
-            case = random_doc_input(rng, algo, 7 if uno else 6, 4, min_obj=4 if uno else 3, max_fam=4 if uno else 3)
+            case = random_doc_input(rng, algo, 7 if uno else 6, 4, min_obj=5 if uno else 3, max_fam=4 if uno else 3)
             check_case(ctx, case, "inproc", with_draw=False)
             ctx.count("mon.pairs_without_drawing")
             if ctx.too_many():
